@@ -141,10 +141,10 @@ TEXTS = ("", "hello", "päss", "x" * 70, "pass:word", ":", "abcd:", "o\ufb03ce",
 @obligation(prop="C09", sites=("plain", "default"), encodes=ENC, budget={"quick": 120, "thorough": 300},
             what="real hashlib/base64/urandom on secrets from a menu (empty, ascii, non-ascii, long, containing colons / looking like salt:digest, not NFKC-normalised) for all six "
                  "algorithms: a plaintext leaf is hashed on load, the plaintext is absent from every serialised "
-                 "leaf, defaults given as plaintext or as DigestValue behave alike, digest == hashlib(salt+p)")
+                 "leaf, defaults given as plaintext (text or byte string) or as DigestValue behave alike, digest == hashlib(salt+p)")
 def challenge_concrete(ai: int, ti: int, default_kind: int) -> bool:
     """
-    pre: 0 <= ai < 6 and 0 <= ti < 10 and 0 <= default_kind <= 2
+    pre: 0 <= ai < 6 and 0 <= ti < 10 and 0 <= default_kind <= 4
     post: _
     """
     import base64
@@ -159,7 +159,7 @@ def challenge_concrete(ai: int, ti: int, default_kind: int) -> bool:
             text = TEXTS[i]
     from vf.hlib.stubs import untraced
     dk = 0
-    for i in range(3):
+    for i in range(5):
         if default_kind == i:
             dk = i
     default_kind = dk
@@ -175,11 +175,17 @@ def _concrete(algo: str, size: int, text: str, default_kind: int) -> bool:
         schema.pw = ChallengeField(algo)
     elif default_kind == 1:
         schema.pw = ChallengeField(algo, default=text)
+    elif default_kind == 3:
+        schema.pw = ChallengeField(algo, default=text.encode())     # the secret as a byte string
+    elif default_kind == 4:
+        schema.pw = ChallengeField(algo)                            # ... assigned as a byte string
     else:
         schema.pw = ChallengeField(algo, default=DigestValue.create(text, getattr(hashlib, algo)))
     cfg = schema()
     if default_kind == 0:
         cfg.load_tree({"pw": text})  # a plaintext written by hand into a file
+    elif default_kind == 4:
+        cfg.pw = text.encode()
     dv = cfg.pw
     hold("plain", type(dv) is DigestValue, "plaintext leaf / default was not hashed")
     hold("plain", len(dv.salt) == size and dv.digest == getattr(hashlib, algo)(dv.salt + text.encode()).digest(),
@@ -201,6 +207,6 @@ def _concrete(algo: str, size: int, text: str, default_kind: int) -> bool:
     cfg2.load_tree(tree)
     hold("default", cfg2.pw.salt == dv.salt and cfg2.pw.digest == dv.digest, "salt/digest changed by save + load")
     other = schema()
-    if default_kind == 1:
+    if default_kind in (1, 3):
         hold("default", other.pw.salt != dv.salt, "two configurations share one random salt")
     return True
